@@ -1,1 +1,38 @@
-From Arche Require Import Model.Base.
+(** C05 - Relation targets (level: partial, see DESIGN.md).  Proved on the model: what
+    Relations.Get reports is the target stored with the entity's table; it is part of
+    [ent_cells], which the move, creation and removal theorems of C01/C06 preserve for all
+    other entities; a dead target is refused by every target-taking entry point.  The
+    remaining clauses are decided by the correspondence run. *)
+From Arche Require Import Model.Base Model.Pool Model.World Model.Ops
+  Proofs.PoolInv Proofs.Store Proofs.Misc Proofs.Atomic.
+
+Theorem C05_get_reports_table_target : forall w e id tid row t nd,
+  ent_table w e = Some (tid, row, t, nd) -> check_relation w tid id = true ->
+  step w (ORelGet e id) = (w, Ok (VEnt (t_target t)), []).
+Proof. exact rel_get_is_table_target. Qed.
+
+Theorem C05_get_refused : forall w e id tid row t nd,
+  ent_table w e = Some (tid, row, t, nd) -> n_rel nd <> Some id ->
+  w_tables w !! tid = Some t -> w_nodes w !! t_node t = Some nd ->
+  step w (ORelGet e id) = (w, Panic, []).
+Proof. exact rel_get_refused. Qed.
+
+(** Only an alive entity or the zero entity can be assigned as a target. *)
+Theorem C05_dead_target_refused : forall w e rid t,
+  target_ok w t = false ->
+  step w (ORelSet e rid t) = (w, Panic, []) /\
+  (forall add rem, step w (ORelExchange e add rem rid t) = (w, Panic, [])) /\
+  (forall b, b_rel b <> None -> step w (OBNew b (Some t)) = (w, Panic, [])) /\
+  (forall a q, step w (OBatchSetRel q a rid t) = (w, Panic, [])).
+Proof. exact illegal_dead_target. Qed.
+
+(** The target of every OTHER entity survives a move of some entity between tables
+    (Relations.Set, Add/Remove/Exchange): [ent_cells] includes the target. *)
+Theorem C05_target_frame_move : forall w live e src row dst keep st dt sn dn,
+  store_ok w live -> e ∈ live -> loc w e = Some (src, row) -> src <> dst ->
+  w_tables w !! src = Some st -> w_tables w !! dst = Some dt ->
+  w_nodes w !! t_node st = Some sn -> w_nodes w !! t_node dt = Some dn -> 0 < node_capinc w dn ->
+  forall e', e' ∈ live -> e' <> e -> ent_cells (move_entity w e src row dst keep) e' = ent_cells w e'.
+Proof. intros. by eapply move_entity_ok. Qed.
+
+Print Assumptions C05_dead_target_refused.
